@@ -136,6 +136,10 @@ def _chunk(task):
     logging.getLogger("formulae").setLevel(logging.CRITICAL)
     warnings.simplefilter("ignore")
     from formulae import design_matrices
+    from formulae.scanner import Scanner
+    from formulae.parser import Parser
+    from formulae.terms.call_resolver import CallResolver
+    from ..contracts import resolver_c as rc
     rnd = random.Random(seed)
     rng = np.random.default_rng(seed)
     d = pd.DataFrame({"y": rng.normal(size=N), "a": rng.uniform(1, 2, N), "b": rng.uniform(1, 2, N), "c": rng.uniform(1, 2, N)})
@@ -168,6 +172,18 @@ def _chunk(task):
         if not np.all(np.isfinite(want)):
             continue
         f = f"y ~ 0 + {messy}"
+        # the specification function of the resolver contract (vf/contracts/resolver_c.lazy_of), executed natively on the real
+        # syntax tree, against the real CallResolver
+        try:
+            tree = Parser(Scanner(messy).scan(False)).parse()
+            if rc.wf(tree) and rc.resolvable(tree):
+                got_lazy, want_lazy = CallResolver(tree).resolve(), rc.lazy_of(tree)
+                if not (got_lazy == want_lazy and str(got_lazy) == str(want_lazy)):
+                    res.append((f, cls, f"resolver: lazy object {got_lazy} differs from the node-by-node specification {want_lazy}"))
+                    continue
+        except Exception as ex:
+            res.append((f, cls, f"resolver: raised {type(ex).__name__}: {ex}"))
+            continue
         try:
             CALLS.clear()
             dm = design_matrices(f, d)
@@ -213,13 +229,18 @@ def known_class(cls, sig):
 
 
 def PROOFS():
-    from ..contracts import call_resolver_c
+    from ..contracts import call_resolver_c, parser_c, resolver_c
     R = "formulae.terms.call_resolver."
     return [("vf.contracts.call_resolver_c", [R + "LazyValue.eval"] + [R + c for c in (
         "LazyValue.__eq__", "LazyCall.__eq__", "LazyOperator.__eq__", "LazyVariable.__eq__")]),
             # literal scanning: the literal of a NUMBER / STRING / PYTHON_LITERAL token is Python's reading of exactly its text
             ("vf.contracts.scanner_c", ["formulae.scanner.Scanner." + f for f in ("add_token", "floatnum", "number", "identifier", "char")]),
-            ("vf.contracts.variable_c", ["formulae.terms.call.Call.__eq__", "formulae.terms.call.Call.__hash__"])]
+            ("vf.contracts.variable_c", ["formulae.terms.call.Call.__eq__", "formulae.terms.call.Call.__hash__"]),
+            # the lazy object built for the arguments mirrors the parsed expression node by node, with Python's operator for every
+            # operator token (all visit methods, dynamic dispatch through accept, resolve)
+            ("vf.contracts.resolver_c", resolver_c.FUNCTIONS),
+            # the argument grammar is the formula grammar: tree shape, precedence levels and associativity of every parser function
+            ("vf.contracts.parser_c", parser_c.FUNCTIONS)]
 
 
 def run(report, findings):
